@@ -939,14 +939,22 @@ func (c *Ctx) wsWriterChoice(rule string) {
 		return
 	}
 	n := 0
-	allInstrs(w.Spawn, func(in ssa.Instruction) {
-		ci, ok := in.(ssa.CallInstruction)
-		if !ok || !ci.Common().IsInvoke() || r.IDisp == nil {
-			return
-		}
-		if ci.Common().Value.Type() != types.Type(r.IDisp) {
-			return
-		}
+	var invokes []ssa.Instruction
+	for _, g := range withAnon(w.Spawn) {
+		allInstrs(g, func(in ssa.Instruction) {
+			ci, ok := in.(ssa.CallInstruction)
+			if ok && ci.Common().IsInvoke() && r.IDisp != nil && ci.Common().Value.Type() == types.Type(r.IDisp) {
+				invokes = append(invokes, in)
+			}
+		})
+	}
+	type cand struct {
+		v     ssa.Value
+		conds []condFact
+		cond  bool // conds meaningful
+	}
+	for _, in := range invokes {
+		ci := in.(ssa.CallInstruction)
 		n++
 		construct := fmt.Sprintf("%s: writer handed to the dispatcher", fname(w.Spawn))
 		var prov ssa.Value
@@ -957,18 +965,31 @@ func (c *Ctx) wsWriterChoice(rule string) {
 		}
 		if prov == nil {
 			c.und(rule, construct, c.ipos(in), "no writer-provider argument found")
-			return
+			continue
+		}
+		var cands []cand
+		switch x := prov.(type) {
+		case *ssa.Phi:
+			for i, e := range x.Edges {
+				cands = append(cands, cand{e, edgeConds(x.Block().Preds[i], x.Block()), true})
+			}
+		case *ssa.UnOp:
+			addr := p.canonVar(x.X)
+			if al, ok := addr.(*ssa.Alloc); ok && x.Op == token.MUL {
+				for _, ref := range *al.Referrers() {
+					if st, ok := ref.(*ssa.Store); ok && st.Addr == ssa.Value(al) {
+						cands = append(cands, cand{st.Val, expandConds(impliedConds(st.Block())), true})
+					}
+				}
+			}
+		}
+		if len(cands) == 0 {
+			cands = []cand{{prov, nil, false}}
 		}
 		okAll := true
-		var edges []ssa.Value
-		var preds []*ssa.BasicBlock
-		if phi, ok := prov.(*ssa.Phi); ok {
-			edges, preds = phi.Edges, phi.Block().Preds
-		} else {
-			edges = []ssa.Value{prov}
-		}
 		sawDiscard, sawLocked := false, false
-		for i, e := range edges {
+		for _, cd := range cands {
+			e := cd.v
 			var efn *ssa.Function
 			switch x := e.(type) {
 			case *ssa.MakeClosure:
@@ -976,30 +997,26 @@ func (c *Ctx) wsWriterChoice(rule string) {
 			case *ssa.Function:
 				efn = x
 			}
-			isMC := efn != nil
 			switch {
 			case isNilConst(e):
 				okAll = false
 				c.bad(rule, construct, c.ipos(in), "a nil writer provider is handed to the dispatcher: an error reply for such a request (unknown method, panic in a notification handler) calls a nil function and crashes the process")
-			case isMC && p.unbound(efn) == w.NextWriter:
+			case efn != nil && p.unbound(efn) == w.NextWriter:
 				sawLocked = true
-				if preds != nil {
-					// must be chosen only when the id is non-nil
-					nonNil := false
-					for _, cf := range edgeConds(preds[i], prov.(*ssa.Phi).Block()) {
-						if isT, nn := c.idNilTestFrame(cf.Cond); isT && (nn == cf.True) {
-							nonNil = true
-						}
+				nonNil := false
+				for _, cf := range cd.conds {
+					if isT, nn := c.idNilTestFrame(cf.Cond); isT && (nn == cf.True) {
+						nonNil = true
 					}
-					if !nonNil {
-						okAll = false
-						c.bad(rule, construct, c.ipos(in), "the real message writer is handed out on a path where the request may have no id: a notification would be answered on the wire")
-					}
-				} else {
+				}
+				if !cd.cond || len(cands) == 1 {
 					okAll = false
 					c.bad(rule, construct, c.ipos(in), "every request, including notifications, gets the real message writer: failing notifications are answered with an id:null frame")
+				} else if !nonNil {
+					okAll = false
+					c.bad(rule, construct, c.ipos(in), "the real message writer is handed out on a path where the request may have no id: a notification would be answered on the wire")
 				}
-			case isMC && c.isDiscardProvider(efn):
+			case efn != nil && c.isDiscardProvider(efn):
 				sawDiscard = true
 			default:
 				okAll = false
@@ -1013,7 +1030,7 @@ func (c *Ctx) wsWriterChoice(rule string) {
 		if okAll {
 			c.ok(rule, construct, c.ipos(in), "discarding provider by default; locked writer only under id != nil")
 		}
-	})
+	}
 	if n == 0 {
 		c.und(rule, fname(w.Spawn)+": dispatcher invocation", p.pos(w.Spawn.Pos()), "no invocation of the dispatcher interface found in the call spawner")
 	}
